@@ -20,9 +20,8 @@ theorem loadStack_db (w : World) (u : User) (self : Flav) (s : Nat) :
       (loadStack w u self s).w.nst = w.nst ∧ (loadStack w u self s).w.touch = w.touch ∧
       (loadStack w u self s).w.extras = w.extras := by
   unfold loadStack
-  dsimp only
   split
-  · exact saveAll_db _ _ _ _ _
+  · exact ⟨rfl, rfl, rfl, rfl, rfl⟩
   · split
     · exact ⟨rfl, rfl, rfl, rfl, rfl⟩
     · exact saveAll_db _ _ _ _ _
@@ -135,7 +134,7 @@ theorem replay_db (fixed : Bool) (u : User) (held : Nat → List Flav) (wm : Wor
 the view it loaded. -/
 theorem step_db (fixed : Bool) (w : World) (u : User) (c : Cmd) (crash : Option Nat) :
     ∃ (m : Spec) (dirs : List DirEnt) (ex : List Extra) (es : List Eff),
-      es.Sublist (run w.nst c ⟨w.db, m, dirs, [], ex⟩).2.tr ∧
+      es.Sublist (run w.nst c ⟨w.db, m, dirs, [], ex, w.tfiles⟩).2.tr ∧
       (stepG fixed w (.run u c crash)).w.db = es.foldl (fun c e => applyDb e c) w.db := by
   simp only [stepG]
   obtain ⟨hdb, hdirs, _⟩ := load_db w u c.self
@@ -146,15 +145,28 @@ theorem step_db (fixed : Bool) (w : World) (u : User) (c : Cmd) (crash : Option 
   rw [hdb]
   cases crash with
   | none =>
-    obtain ⟨es', hs, he⟩ := replay_db fixed u (heldOf fl) (w1, m) (run w.nst c ⟨w.db, m, w1.dirs, [], w1.extras⟩).2.tr none
+    obtain ⟨es', hs, he⟩ := replay_db fixed u (heldOf fl) (w1, m) (run w.nst c ⟨w.db, m, w1.dirs, [], w1.extras, w.tfiles⟩).2.tr none
     exact ⟨es', by simpa using hs, by rw [he, hdb]⟩
   | some k =>
-    obtain ⟨es', hs, he⟩ := replay_db fixed u (heldOf fl) (w1, m) (cutAfterDb (run w.nst c ⟨w.db, m, w1.dirs, [], w1.extras⟩).2.tr k).1
-      (cutAfterDb (run w.nst c ⟨w.db, m, w1.dirs, [], w1.extras⟩).2.tr k).2
+    obtain ⟨es', hs, he⟩ := replay_db fixed u (heldOf fl) (w1, m) (cutAfterDb (run w.nst c ⟨w.db, m, w1.dirs, [], w1.extras, w.tfiles⟩).2.tr k).1
+      (cutAfterDb (run w.nst c ⟨w.db, m, w1.dirs, [], w1.extras, w.tfiles⟩).2.tr k).2
     exact ⟨es', hs.trans (cutAfterDb_sublist _ _), by rw [he, hdb]⟩
 
 theorem step_rmCache_db (fixed : Bool) (w : World) (u : User) (s : Nat) (f : Flav) :
     (stepG fixed w (.rmCache u s f)).w.db = w.db := rfl
+
+/-- `eups admin buildCache -A` writes cache files and nothing else -/
+theorem step_adminBuild_db (fixed : Bool) (w : World) (u : User) (self : Flav) :
+    (stepG fixed w (.adminBuild u self)).w.db = w.db ∧ (stepG fixed w (.adminBuild u self)).w.dirs = w.dirs ∧
+      (stepG fixed w (.adminBuild u self)).w.nst = w.nst ∧ (stepG fixed w (.adminBuild u self)).w.touch = w.touch ∧
+      (stepG fixed w (.adminBuild u self)).w.extras = w.extras ∧ (stepG fixed w (.adminBuild u self)).trace = [] := by
+  simp only [stepG]
+  obtain ⟨h1, h2, h3⟩ := load_db { w with caches := w.caches.filter fun x => x.user != u } sysUser self
+  have h4 := load_touch { w with caches := w.caches.filter fun x => x.user != u } sysUser self
+  have h5 := load_extras { w with caches := w.caches.filter fun x => x.user != u } sysUser self
+  generalize load { w with caches := w.caches.filter fun x => x.user != u } sysUser self = l at h1 h2 h3 h4 h5
+  obtain ⟨m, fl, w1⟩ := l
+  exact ⟨h1, h2, h3, h4, h5, trivial⟩
 
 /-- every property of the database that every effect preserves is preserved by every command -/
 theorem step_preserves (P : Spec → Prop) (hP : ∀ c e, P c → P (applyDb e c))
@@ -162,6 +174,8 @@ theorem step_preserves (P : Spec → Prop) (hP : ∀ c e, P c → P (applyDb e c
   cases c with
   | rmCache u s f => exact h
   | clearCache u => exact h
+  | envRmDir d => exact h
+  | adminBuild u self => rw [(step_adminBuild_db fixed w u self).1]; exact h
   | run u c crash =>
     obtain ⟨m, dirs, ex, es, -, he⟩ := step_db fixed w u c crash
     rw [he]
@@ -184,7 +198,7 @@ theorem step_of_empty_trace (fixed : Bool) (w : World) (u : User) (c : Cmd) (cra
   generalize load w u c.self = l at hdb hdirs ht hex
   obtain ⟨m, fl, w1⟩ := l
   dsimp only at hdb hdirs ht hex ⊢
-  have htr := h ⟨w1.db, m, w1.dirs, [], w1.extras⟩ rfl
+  have htr := h ⟨w1.db, m, w1.dirs, [], w1.extras, w.tfiles⟩ rfl
   rw [htr]
   cases crash with
   | none => exact ⟨hdb, hdirs, ht, hex⟩
